@@ -30,10 +30,11 @@ REQUIRED_REACH = ["steps_agree", "reopens_ok", "failpoints_ok", "failpoint_state
 SHARD_TIMEOUT = {"quick": 240, "thorough": 3000}
 NSNAME = "Pyro.NameServer"
 NAMES = ["test", "Test", "TEST", "test.a", "test.b", "Test.a", "tes", "te%t", "te_t", "te.t", "%", "_", "a%", "axb", "a_b", "a.b", "a+b", "a*", "[ab]", "(x)", "ä", "Ä", "ß", "straße",
-         "", NSNAME, "Pyro.NameServer2", "pyro.nameserver", "x" * 40, "a b", "ab\\c", "'quoted'", "semi;colon", "\"dq\""]
-TAGS = ["t", "T", "tag%", "tag_", "a", "b", "ä", "", "class:x", "x.y", "[", "%"]
-PREFIXES = ["te", "Te", "test", "TEST", "test.", "te%", "te_", "%", "_", "a", "a%", "a_", "a.", "ä", "Ä", "Pyro", "pyro", "", "[", "ab\\", "'", "x" * 40, "st"]
-REGEXES = ["te.*", "test\\..", "TEST", "[Tt]est", ".*", "a.b", "a\\+b", "a+b", "%", "_", "(", "[", "*", "ä", "te%t", "Pyro\\..*", "", "a|t", "^te", "st$", ".*e$"]
+         "", NSNAME, "Pyro.NameServer2", "pyro.nameserver", "x" * 40, "a b", "ab\\c", "'quoted'", "semi;colon", "\"dq\"",
+         "42", "042", "1e2", "100", "+5", "0x10", " 7", "NULL", "nan"]        # number-like text must stay literal text (sqlite column affinity)
+TAGS = ["t", "T", "tag%", "tag_", "a", "b", "ä", "", "class:x", "x.y", "[", "%", "7", "07", "7.0"]
+PREFIXES = ["te", "Te", "test", "TEST", "test.", "te%", "te_", "%", "_", "a", "a%", "a_", "a.", "ä", "Ä", "Pyro", "pyro", "", "[", "ab\\", "'", "x" * 40, "st", "0", "4", "1"]
+REGEXES = ["te.*", "test\\..", "TEST", "[Tt]est", ".*", "a.b", "a\\+b", "a+b", "%", "_", "(", "[", "*", "ä", "te%t", "Pyro\\..*", "", "a|t", "^te", "st$", ".*e$", "[0-9]+", "0.*"]
 URIS = ["PYRO:obj@host:1", "PYRO:obj2@host:2", "PYRO:o@[::1]:3", "PYRO:o@./u:sock", "PYRONAME:x", "PYRO:Ä@h:4"]
 MUTATING = {"register", "remove", "set_metadata"}
 
